@@ -67,7 +67,7 @@ def scratch_apply(patch):
     r = sh(f"git apply {patch}", cwd=f"{MUT}/repo")
     if r.returncode != 0:
         return r.stdout
-    for prof in ("--release", "--profile relnd", f"--profile relnd --no-default-features --target-dir {MUT}/target/nostd"):
+    for prof in ("--release", "--profile relnd", f"--profile relnd --no-default-features --target-dir {MUT}/target/nostd", ""):
         r = sh(f"cargo build {prof} --offline", cwd=f"{MUT}/sim", env=dict(os.environ, CARGO_NET_OFFLINE="true"))
         if r.returncode != 0:
             return r.stdout[-1500:]
